@@ -789,7 +789,7 @@ func c04Verified(method string) bool {
 }
 
 var c04Tampers = []string{"time", "method", "path", "query", "body", "sig", "sig-empty", "fp-unknown", "fp-other",
-	"key", "secret-garbage", "secret-foreignkey", "noheader", "time-text", "query-drop", "body-drop", "body-suffix", "path-spelling", "path-spelling"}
+	"key", "secret-garbage", "secret-foreignkey", "noheader", "time-text", "query-drop", "body-drop", "body-suffix", "path-spelling", "path-spelling", "body-append", "body-trunc"}
 
 // c04Tamper applies exactly one alteration to a correctly signed request.
 // It returns false when the alteration would be the identity.
@@ -867,6 +867,13 @@ func c04Tamper(w c04Wire, r c04SigReq, ts int64, kind string, arg int) (c04Wire,
 			}
 			w.Body = b
 		}
+	case "body-append":
+		w.Body = append(append([]byte(nil), w.Body...), 'x')
+	case "body-trunc":
+		if len(w.Body) == 0 {
+			return w, false
+		}
+		w.Body = append([]byte(nil), w.Body[:len(w.Body)-1]...)
 	case "body-suffix":
 		// only the tail of the signed body is sent
 		if len(w.Body) < 2 {
